@@ -129,9 +129,17 @@ Fixpoint spec_grants (advertised : list string) (gs : list string) (answers : li
   | _, _ => false
   end.
 
+(* RFC 3986 3.1: scheme names are case-insensitive ("HTTP://", "Http://" are http) *)
+Definition lower_ascii (a : ascii) : ascii :=
+  let n := nat_of_ascii a in
+  if (65 <=? n) && (n <=? 90) then ascii_of_nat (n + 32) else a.
+
+(* the string is written with the scheme http, however the scheme is spelled *)
 Definition starts_with_http (s : string) : bool :=
   match s with
-  | String "h" (String "t" (String "t" (String "p" (String ":" _)))) => true
+  | String a (String b (String c (String d (String e _)))) =>
+      Ascii.eqb (lower_ascii a) "h" && Ascii.eqb (lower_ascii b) "t" && Ascii.eqb (lower_ascii c) "t"
+      && Ascii.eqb (lower_ascii d) "p" && Ascii.eqb e ":"
   | _ => false
   end.
 
